@@ -114,6 +114,7 @@ func loadWorld(dir string, lc LoadCfg, extraTags []string, patterns []string) (*
 	if len(pkgs) < len(patterns) {
 		return nil, fmt.Errorf("load %s: %d packages for %d patterns", dir, len(pkgs), len(patterns))
 	}
+	alphaNormalise(pkgs)
 	return w, nil
 }
 
